@@ -664,6 +664,18 @@ impl<'lexer> Lexer<'lexer> {
         // return the name that exists in the current context
         return Ok((TokenType::Name, TokenValue::Name(part_sublist.to_vec().into())));
       }
+      // where a type is expected, a built-in type name ends the name even when more words
+      // follow it (`a instance of string and b` is a conjunction, not the type `string and b`)
+      if self.type_name
+        && matches!(
+          name.as_str(),
+          "Any" | "Null" | "boolean" | "number" | "string" | "date" | "date and time" | "time" | "years and months duration" | "days and time duration"
+        )
+      {
+        self.type_name = false;
+        self.position = consumed_positions[part_count - 1] + 1;
+        return Ok((TokenType::BuiltInTypeName, TokenValue::BuiltInTypeName(part_sublist.to_vec().into())));
+      }
       part_count -= 1;
     }
 
